@@ -360,6 +360,61 @@ func queryC09(trak *mp4.TrakBox, t *tables, q []string) string {
 				return strings.Join(s, "/")
 			}))
 		}
+	case "dtn":
+		i := atoi(q[1])
+		return pstr(func() string { d, u := stbl.Stts.GetDecodeTime(uint32(i)); return fmt.Sprintf("%d:%d", d, u) })
+	case "durn":
+		return pstr(func() string { return fmt.Sprint(stbl.Stts.GetDur(uint32(atoi(q[1])))) })
+	case "nrat":
+		x, _ := strconv.ParseUint(q[1], 10, 64)
+		return pstr(func() string {
+			k, err := stbl.Stts.GetSampleNrAtTime(x)
+			if err != nil {
+				return "e"
+			}
+			return fmt.Sprint(k)
+		})
+	case "cton":
+		if stbl.Ctts == nil {
+			return "-"
+		}
+		return pstr(func() string { return fmt.Sprint(stbl.Ctts.GetCompositionTimeOffset(uint32(atoi(q[1])))) })
+	case "chunkofn":
+		return pstr(func() string { c, f, _ := stbl.Stsc.ChunkNrFromSampleNr(atoi(q[1])); return fmt.Sprintf("%d:%d", c, f) })
+	case "chunkn":
+		return pstr(func() string { ch := stbl.Stsc.GetChunk(uint32(atoi(q[1]))); return fmt.Sprintf("%d:%d", ch.StartSampleNr, ch.NrSamples) })
+	case "totab":
+		return pstr(func() string {
+			k, err := stbl.Stsz.GetTotalSampleSize(uint32(atoi(q[1])), uint32(atoi(q[2])))
+			if err != nil {
+				return "e"
+			}
+			return fmt.Sprint(k)
+		})
+	case "chunksab":
+		return pstr(func() string {
+			cs, err := stbl.Stsc.GetContainingChunks(uint32(atoi(q[1])), uint32(atoi(q[2])))
+			if err != nil {
+				return "P"
+			}
+			s := []string{}
+			for _, c := range cs {
+				s = append(s, fmt.Sprintf("%d:%d:%d", c.ChunkNr, c.StartSampleNr, c.NrSamples))
+			}
+			return strings.Join(s, "/")
+		})
+	case "rangesab":
+		return pstr(func() string {
+			rs, err := trak.GetRangesForSampleInterval(uint32(atoi(q[1])), uint32(atoi(q[2])))
+			if err != nil {
+				return "P"
+			}
+			s := []string{}
+			for _, r := range rs {
+				s = append(s, fmt.Sprintf("%d:%d", r.Offset, r.Size))
+			}
+			return strings.Join(s, "/")
+		})
 	case "sdata":
 		a, b := atoi(q[1]), atoi(q[2])
 		return pstr(func() string {
@@ -408,7 +463,7 @@ func genTables(c *Ctx) (*tables, *expanded) {
 		if r.Intn(3) > 0 && k > 6 {
 			k = 1 + r.Intn(6)
 		}
-		d := uint32([]int{1, 2, 512, 1000, 1001, 3000, 3003, 1 << 20}[r.Intn(8)])
+		d := uint32([]int64{1, 2, 512, 1000, 1001, 3000, 3003, 1 << 20, 1 << 31, 3000000000, 1<<32 - 1}[r.Intn(11)])
 		if r.Intn(10) == 0 {
 			d = uint32(1 + r.Intn(5000))
 		}
@@ -581,6 +636,7 @@ func genTables(c *Ctx) (*tables, *expanded) {
 }
 
 func genC09(c *Ctx) {
+	genBigC09(c)
 	nTables := c.N(250, 6000)
 	c.St.Exhaustive = true
 	c.Note("per generated table set: all sample numbers, all intervals a<=b, all chunk numbers, all times 0..total+2 (capped at 4000 distinct times around sample boundaries) are evaluated")
@@ -731,6 +787,147 @@ func genC09(c *Ctx) {
 				q := fmt.Sprintf("sdata %d %d", a, b)
 				fp := "C09-sample-data"
 				chk(fp, "GetSampleData != per-sample metadata of the interval", q, run(q), strings.Join(ms, "/"))
+			}
+		}
+	}
+}
+
+// big run-length tables (millions of samples): point queries at run boundaries against run arithmetic
+func genBigC09(c *Ctx) {
+	r := c.R
+	for it := 0; it < c.N(150, 4000); it++ {
+		ne := 1 + r.Intn(5)
+		t := &tables{}
+		type run struct{ first, count, val uint64 }
+		var durRuns []run
+		var n uint64
+		for i := 0; i < ne; i++ {
+			cnt := uint64([]int{1, 2, 1000, 65536, 70000, 1 << 20, 5000000}[r.Intn(7)])
+			d := uint64([]int64{1, 1000, 1001, 90000, 1 << 20, 1 << 24, 1<<32 - 1}[r.Intn(7)])
+			t.sttsC = append(t.sttsC, uint32(cnt))
+			t.sttsD = append(t.sttsD, uint32(d))
+			durRuns = append(durRuns, run{n + 1, cnt, d})
+			n += cnt
+		}
+		t.n = uint32(n)
+		t.uniform = uint32(1 + r.Intn(5000))
+		// ctts with large runs
+		t.hasCtts = true
+		left := n
+		var ctRuns []run
+		for left > 0 {
+			k := left
+			if len(t.cttsC) < 4 && left > 1 {
+				k = 1 + uint64(r.Int63n(int64(left)))
+			}
+			o := r.Intn(100000)
+			t.cttsC = append(t.cttsC, uint32(k))
+			t.cttsO = append(t.cttsO, int32(o))
+			ctRuns = append(ctRuns, run{n - left + 1, k, uint64(o)})
+			left -= k
+		}
+		// stsc: 1..4 entries with large chunk counts
+		nEnt := 1 + r.Intn(4)
+		var fc uint64 = 1
+		type ent struct{ fc, spc, fs uint64 }
+		var ents []ent
+		var fs uint64 = 1
+		for i := 0; i < nEnt; i++ {
+			spc := uint64(1 + r.Intn(2000))
+			ents = append(ents, ent{fc, spc, fs})
+			t.stsc = append(t.stsc, [3]uint32{uint32(fc), uint32(spc), 1})
+			nch := uint64(1 + r.Intn(3000))
+			fs += nch * spc
+			fc += nch
+		}
+		// offsets: only a handful (GetOffset is not queried for big tables)
+		t.offsets = []uint64{100}
+		pre := "stbl " + t.line() + " "
+		c.Eval(pre)
+		c.Count("big-table")
+		run1 := func(q string) string { x := execC09(pre + q); c.Case(pre+q, x); return x }
+		// boundary sample numbers
+		var pts []uint64
+		for _, dr := range durRuns {
+			pts = append(pts, dr.first, dr.first+dr.count-1, dr.first+dr.count/2)
+		}
+		for _, cr := range ctRuns {
+			pts = append(pts, cr.first, cr.first+cr.count-1)
+		}
+		for _, p := range pts {
+			if p < 1 || p > n {
+				continue
+			}
+			// decode time by run arithmetic
+			var dec, dur uint64
+			for _, dr := range durRuns {
+				if p >= dr.first+dr.count {
+					dec += dr.count * dr.val
+				} else {
+					dec += (p - dr.first) * dr.val
+					dur = dr.val
+					break
+				}
+			}
+			q := fmt.Sprintf("dtn %d", p)
+			if g := run1(q); g != fmt.Sprintf("%d:%d", dec, dur) {
+				c.Fail("C09-decode-time", "GetDecodeTime != sum of earlier durations (large table)", pre+q, g, fmt.Sprintf("%d:%d", dec, dur))
+			}
+			q = fmt.Sprintf("durn %d", p)
+			if g := run1(q); g != fmt.Sprint(dur) {
+				c.Fail("C09-dur", "GetDur != expanded duration (large table)", pre+q, g, fmt.Sprint(dur))
+			}
+			for _, cr := range ctRuns {
+				if p >= cr.first && p < cr.first+cr.count {
+					q = fmt.Sprintf("cton %d", p)
+					if g := run1(q); g != fmt.Sprint(cr.val) {
+						c.Fail("C09-cto", "GetCompositionTimeOffset != expanded ctts (large table)", pre+q, g, fmt.Sprint(cr.val))
+					}
+				}
+			}
+			// sample at the decode time of p must be p (durations are positive here)
+			q = fmt.Sprintf("nrat %d", dec)
+			if g := run1(q); g != fmt.Sprint(p) {
+				c.Fail("C09-sample-at-time", "GetSampleNrAtTime(decodeTime(n)) != n (large table)", pre+q, g, fmt.Sprint(p))
+			}
+			// chunk of sample
+			if p < fs {
+				var cnr, first uint64
+				for i := len(ents) - 1; i >= 0; i-- {
+					if ents[i].fs <= p {
+						k := (p - ents[i].fs) / ents[i].spc
+						cnr = ents[i].fc + k
+						first = ents[i].fs + k*ents[i].spc
+						break
+					}
+				}
+				q = fmt.Sprintf("chunkofn %d", p)
+				if g := run1(q); g != fmt.Sprintf("%d:%d", cnr, first) {
+					c.Fail("C09-chunk-of-sample", "ChunkNrFromSampleNr != naive chunk walk (large table)", pre+q, g, fmt.Sprintf("%d:%d", cnr, first))
+				}
+			}
+			// total size of a long interval with uniform size
+			if p > 1 {
+				q = fmt.Sprintf("totab 1 %d", p)
+				if g := run1(q); g != fmt.Sprint(p*uint64(t.uniform)) {
+					c.Fail("C09-total-size", "GetTotalSampleSize != sum of sizes (large table)", pre+q, g, fmt.Sprint(p*uint64(t.uniform)))
+				}
+			}
+		}
+		// chunk contents at entry boundaries
+		for i, e := range ents {
+			for _, cn := range []uint64{e.fc, e.fc + 1, e.fc + 2999} {
+				if i+1 < len(ents) && cn >= ents[i+1].fc {
+					continue
+				}
+				if cn >= fc && i == len(ents)-1 {
+					// beyond the generated chunk count: stsc's last entry extends indefinitely
+				}
+				q := fmt.Sprintf("chunkn %d", cn)
+				w := fmt.Sprintf("%d:%d", e.fs+(cn-e.fc)*e.spc, e.spc)
+				if g := run1(q); g != w {
+					c.Fail("C09-chunk", "GetChunk != naive chunk contents (large table)", pre+q, g, w)
+				}
 			}
 		}
 	}
